@@ -149,6 +149,10 @@ class PythonPrinter:
                 m2 = self._re_indent_keyword.match(line)
                 if m2:
                     self.indent += 1
+                    # a clause such as "except" can be followed by
+                    # another clause of the same statement
+                    if m2.group(1) in ("else", "except", "finally"):
+                        indentor = m2.group(1)
                     self.indent_detail.append(indentor)
 
     def close(self):
